@@ -122,9 +122,14 @@ def run(tier, seed, replay=None):
         depth = rnd.randint(4, 12)
         chain = [rnd.choice(names) for _ in range(depth)]
         ln = rnd.choice([3, 10, 50])
-        lst = [rnd.choice(names + ["", "", "nomatch", "sshd-", "bcdefghijklmno"]) for _ in range(ln)]
+        lst = [rnd.choice(names + ["", "", "nomatch", "sshd-", "bcdefghijklmno", "abcdefghijklmnop"]) for _ in range(ln)]
         selfname = rnd.choice(names)
         hs.append(dict(chain=chain, self=selfname, list=lst, unread=0, drop=any(x in set(lst) - {""} for x in chain)))
+    # names at the kernel's 15-byte limit of a process name: a listed name that merely starts with (or is a prefix of) such a name is a different name
+    X = "abcdefghijklmno"
+    for chain in ([X], ["zz", X], [X, "zz"], ["zz", X, "cron"], ["sshd"]):
+        for lst in ([X + "p"], [X + "pqrstuvwxyz", "nomatch"], ["nomatch", X + "p", ""], [X[:14]], [X[:14], X + "p"], [X], [X + "p", X]):
+            hs.append(dict(chain=chain, self="zz", list=lst, unread=0, drop=any(x in set(lst) - {""} for x in chain)))
     cases, meta = [], {}
     for i, h in enumerate(hs):
         lab = "s%d" % i
